@@ -277,6 +277,30 @@ def run(ctx):
     cw.standard_check_after_real(ctx, ip, PROP, KINDS, "runner.contain", monitor)
 
 
+def probe_d39(ctx):
+    """a layer whose setUp raises MemoryError (a subclass of Exception) next to a layer that is set up"""
+    import os
+    import random
+    import shutil
+    rng = random.Random(39)
+    w = worlds.gen_world(rng, n_layers=2, tests_per_layer=(1, 1), kinds=["pass"], p_fault=0.0, p_write=0.0)
+    non_unit = sorted([k for k, l in enumerate(w["layers"]) if l["kind"] != "unit"], key=lambda k: worlds.layer_name(w, k))
+    for k in non_unit:
+        w["layers"][k].update(setUp=True, tearDown=True, bases=[], setUpRaises=[], tearDownFaults=[])
+        w["layers"][k].pop("falsy", None)
+    w["layers"][non_unit[-1]]["dieInSetUp"] = "pymemory"
+    d = os.path.join(ctx.tmp, "probe_d39")
+    worlds.materialize(w, d)
+    obs = worlds.run_real(w, {"verbose": 1}, d)
+    shutil.rmtree(d, ignore_errors=True)
+    aborted = "MemoryError" in obs.stderr and "Total:" not in obs.stdout and "Tearing down left over layers" not in obs.stdout
+    return aborted, ("a layer setUp that raises MemoryError (derived from Exception) aborts the run: traceback of the "
+                     "runner, no summary, the layers that were set up are not torn down (the code re-raises MemoryError on purpose)")
+
+
+KNOWN_PROBES = {"D39": probe_d39}
+
+
 def replay(ctx, obj):
     c = cw.replay_case(obj)
     if c is None:
